@@ -398,26 +398,36 @@ def d1_dispatch(ctx):
     ctx.check(ok, "C02-D1", site, "the dispatched dimension is not max(requested, dimensionality of the data)", "")
     ok = any(isinstance(st, ast.Expr) and isinstance(st.value, ast.Call) and au.call_tail(st.value) == "prepare" for st in fn.body[:2])
     ctx.check(ok, "C02-D1", site, "data is not prepared before its dimensionality is read", "")
-    # dimensionality: cells -> 3, faces -> 2, edges -> 1, else 0
+    # dimensionality: cells -> 3, faces -> 2, edges -> 1, else 0 - decided as a decision table over (container empty?) atoms, so
+    # that the spelling of the if / elif chain does not matter
     fn = repo.func(MD, RMD + "._compute_dimensionality")
-    chain = []
-    node = fn.body[0] if fn.body else None
-    while isinstance(node, ast.If):
-        t = node.test
-        cont = None
-        if isinstance(t, ast.UnaryOp) and isinstance(t.op, ast.Not) and isinstance(t.operand, ast.Call) \
-                and au.call_tail(t.operand) == "empty" and au.is_self_attr(t.operand.func.value):
-            cont = t.operand.func.value.attr
-        val = au.const(node.body[0].value) if node.body and isinstance(node.body[0], ast.Assign) else None
-        chain.append((cont, val))
-        if len(node.orelse) == 1 and isinstance(node.orelse[0], ast.If):
-            node = node.orelse[0]
-        else:
-            if node.orelse and isinstance(node.orelse[0], ast.Assign):
-                chain.append((None, au.const(node.orelse[0].value)))
-            node = None
-    ctx.check(chain == [("cells", 3), ("faces", 2), ("edges", 1), (None, 0)], "C02-D1", ctx.site(MD, fn),
-              f"dimensionality chain is {chain}", "dimension must be that of the highest-dimensional non-empty container")
+    from .. import decide
+
+    def atom(e):
+        if isinstance(e, ast.Call) and au.call_tail(e) == "empty" and au.is_self_attr(e.func.value):
+            return e.func.value.attr
+        if isinstance(e, ast.Compare) and len(e.ops) == 1 and isinstance(e.left, ast.Call) and au.call_tail(e.left) == "len" \
+                and e.left.args and au.is_self_attr(e.left.args[0]) and au.const(e.comparators[0]) == 0:
+            if isinstance(e.ops[0], ast.Eq):
+                return (e.left.args[0].attr, True)
+            if isinstance(e.ops[0], (ast.Gt, ast.NotEq)):
+                return (e.left.args[0].attr, False)
+        return None
+    bad = None
+    try:
+        names, rows = decide.table(fn.body, atom)
+        for env, taken in rows:
+            want = 3 if not env.get("cells", True) else 2 if not env.get("faces", True) else 1 if not env.get("edges", True) else 0
+            vals = [au.const(st.value) for p in taken for st in p.stmts if isinstance(st, ast.Assign) and au.is_self_attr(st.targets[0], "_dimensionality")]
+            if len(taken) != 1 or vals[-1:] != [want]:
+                bad = bad or (env, vals)
+        if set(names) != {"cells", "faces", "edges"}:
+            bad = bad or ("containers tested", names)
+    except decide.Unknown as e:
+        bad = ("condition not on the emptiness of a container", str(e))
+    ctx.check(bad is None, "C02-D1", ctx.site(MD, fn),
+              "dimensionality is not 3 / 2 / 1 / 0 for the highest-dimensional non-empty container among cells, faces, edges",
+              f"differs for {bad}", note="dimensionality decision table (8 cases)")
     # Mesh.__init__ thresholds
     fn = repo.func(BASE, "Mesh.__init__")
     exposed = {}
